@@ -174,7 +174,7 @@ def main():
     cfg = gen_config()
     res = Result(PID)
     T = tier()
-    O, K = (3, 4) if T == "quick" else (4, 6)
+    O, K = (3, 4) if T == "quick" else (5, 8)
     inst = []
     for nn, dn in itertools.product(range(0, O + 1), repeat=2):
         for cl in ("equation", "linear", "shift", "zero"):
